@@ -577,10 +577,18 @@ impl LockFreeMemoryPool {
         
         // Always allocate from backing memory to ensure consistent pointer validation
         // External cache allocations would cause pointer validation failures in deallocate
-        let offset = self.next_offset.fetch_add(aligned_size as u32, Ordering::Relaxed);
-        
-        if offset as usize + aligned_size > self.config.memory_size {
-            return Err(ZiporaError::out_of_memory(aligned_size));
+        // Reserve [offset, offset + aligned_size) only if it fits: a refused request must not move
+        // the bump pointer, and the arithmetic must not be truncated to u32 before the check.
+        let mut offset = self.next_offset.load(Ordering::Relaxed);
+        loop {
+            let end = (offset as usize)
+                .checked_add(aligned_size)
+                .filter(|&end| end <= self.config.memory_size && end <= u32::MAX as usize)
+                .ok_or_else(|| ZiporaError::out_of_memory(aligned_size))?;
+            match self.next_offset.compare_exchange_weak(offset, end as u32, Ordering::Relaxed, Ordering::Relaxed) {
+                Ok(_) => break,
+                Err(current) => offset = current,
+            }
         }
 
         let ptr = self.offset_to_ptr(offset)?;
